@@ -4,8 +4,11 @@
 package core
 
 import (
+	"encoding/base64"
 	"encoding/binary"
+	"encoding/json"
 	"hash/fnv"
+	"unicode/utf8"
 )
 
 // Rng is SplitMix64. One Rng, seeded from one integer, decides a whole run.
@@ -13,6 +16,7 @@ type Rng struct{ s uint64 }
 
 func NewRng(seed uint64) *Rng { return &Rng{s: seed} }
 
+//go:norace
 func (r *Rng) Next() uint64 {
 	r.s += 0x9E3779B97F4A7C15
 	z := r.s
@@ -47,6 +51,8 @@ func (t *Tape) Recorded() []uint32 { return append([]uint32(nil), t.Out...) }
 
 // Draw returns a value in [0,n). n<=1 yields 0 but is still recorded so that
 // tapes stay aligned when bounds change during shrinking.
+//
+//go:norace
 func (t *Tape) Draw(n int) int {
 	var v uint32
 	if t.rng != nil {
@@ -67,6 +73,8 @@ func (t *Tape) Draw(n int) int {
 }
 
 // Range returns a value in [lo,hi].
+//
+//go:norace
 func (t *Tape) Range(lo, hi int) int {
 	if hi <= lo {
 		t.Draw(1)
@@ -76,6 +84,8 @@ func (t *Tape) Range(lo, hi int) int {
 }
 
 // Chance is true with probability num/den. 0 on the tape means "no".
+//
+//go:norace
 func (t *Tape) Chance(num, den int) bool {
 	return t.Draw(den) >= den-num
 }
@@ -105,4 +115,35 @@ func HashString(s string) uint64 {
 	f := fnv.New64a()
 	f.Write([]byte(s))
 	return f.Sum64()
+}
+
+// Text is file content inside a materialised case. It marshals as a plain
+// JSON string when it is valid UTF-8 and as {"b64": ...} otherwise, so that a
+// replay file reproduces the bytes exactly (encoding/json would silently
+// replace invalid sequences).
+type Text string
+
+func (t Text) MarshalJSON() ([]byte, error) {
+	if utf8.ValidString(string(t)) {
+		return json.Marshal(string(t))
+	}
+	return json.Marshal(map[string]string{"b64": base64.StdEncoding.EncodeToString([]byte(t))})
+}
+
+func (t *Text) UnmarshalJSON(b []byte) error {
+	var s string
+	if err := json.Unmarshal(b, &s); err == nil {
+		*t = Text(s)
+		return nil
+	}
+	var m map[string]string
+	if err := json.Unmarshal(b, &m); err != nil {
+		return err
+	}
+	raw, err := base64.StdEncoding.DecodeString(m["b64"])
+	if err != nil {
+		return err
+	}
+	*t = Text(raw)
+	return nil
 }
